@@ -211,6 +211,8 @@ def emit(I, out, alias, unit, qc, cap, T, S, q, qbase, mS, volS, volT, finite=No
                 else:
                     I.oblige('raises[accept]', z3.Not(fits) if fits is not True else False, 'property',
                              note=f'ValueError at line {ex.lineno} for a request that fits')
+            elif qc == 'empty0' and alias:
+                I.oblige('raises[accept]', True, 'property')
             elif qc == 'empty0':
                 I.oblige('raises[accept]', False, 'property',
                          note=f'ValueError at line {ex.lineno}: transferring nothing out of an empty source is feasible')
@@ -220,160 +222,64 @@ def emit(I, out, alias, unit, qc, cap, T, S, q, qbase, mS, volS, volT, finite=No
             I.oblige(f'safe[{ex.cls}]', False, 'property', note=f'{ex.cls} at line {ex.lineno}')
 
 
-def ladder(I, ob, hyps):
-    tags = I.hyp_tags[:ob.nhyps] + ['extra'] * len(ob.extra)
-    first = [h for h, t in zip(hyps, tags) if t != 'enum']
-    rest = [h for h, t in zip(hyps, tags) if t == 'enum']
-    return [first, rest] if rest else [first]
+class TransferOp(clib.Op):
+    FN = FN
+    PROPS_OF = {'conserve': ['C01'], 'uniform': ['C02'], 'size': ['C02'], 'nothing-moved': ['C02'],
+                'nonneg': ['C03'], 'cap': ['C03'], 'refuse': ['C03'], 'accept': ['C03'], 'safe': ['C03'],
+                'vol': ['C10'], 'frame': ['C04'], 'fresh': ['C04'], 'identity': ['C04']}
+
+    def case_name(self, case):
+        return case_name(*case)
+
+    def setup(self, I, case, finite=None):
+        return setup_case(I, *case, finite=finite)
+
+    def invoke(self, I, st, case):
+        T, S, q = st[0], st[1], st[2]
+        return vc.call(I, FN, [T.obj, S.obj, SegStr([NumHole(q), ' ', case[1]])])
+
+    def emit(self, I, out, st, case, finite=None):
+        emit(I, out, *case, *st, finite=finite)
+
+    def finite_configs(self, case, nmax):
+        alias, unit, qc, cap = case
+        for n in range(1, nmax + 1):
+            keys = [z3.Const(f's{i}', Sub) for i in range(n)]
+            for rows in clib.presence_patterns(n, 1 if alias else 2):
+                pS = rows[0]
+                pT = rows[0] if alias else rows[1]
+                if not any(pS) and qc == 'range':
+                    continue
+                yield (keys, pS, pT)
+
+    def inputs(self, I, st, case, fin):
+        T, S, q = st[0], st[1], st[2]
+        keys = fin[0]
+        inputs = {'q': q}
+        inputs.update(clib.sub_inputs(keys))
+        for s in keys:
+            inputs[f'S_{s}'] = S.amt[s]
+            inputs[f'T_{s}'] = T.amt[s]
+        if case[3] != 'inf':
+            inputs['capT'] = T.cap
+        return inputs
+
+    def prefs(self, I, st, case, fin):
+        T, S, q = st[0], st[1], st[2]
+        keys = fin[0]
+        return clib.nice_model_prefs(keys, [S.amt[s] for s in keys] + [T.amt[s] for s in keys],
+                                     [q] + ([T.cap] if case[3] != 'inf' else []))
+
+    def replay(self, mv, st, case, fin, clause):
+        keys, pS, pT = fin
+        return make_replay(mv, keys, pS, pT, case[0], case[1], case[3], clause)
+
+
+OP = TransferOp()
 
 
 def run_case(pid, alias, unit, qc, cap, finite_max=2):
-    """All obligations of one case, restricted to the clauses serving property `pid` (or all if pid is None).
-    Pass 1: short solver budget.  What is not proved goes to the finite-instantiation search (real counterexamples are
-    found there quickly); what is still open is retried with the full budget and the fallback solvers."""
-    case = case_name(alias, unit, qc, cap)
-    ctr = clib.contracts()
-
-    def body(I):
-        st = setup_case(I, alias, unit, qc, cap)
-        I.oblige('cover', True, 'cover')
-        T, S, q = st[0], st[1], st[2]
-        out = vc.call(I, FN, [T.obj, S.obj, SegStr([NumHole(q), ' ', unit])])
-        emit(I, out, alias, unit, qc, cap, *st)
-        return out
-
-    def one_pass(timeout, only, fallbacks):
-        res = []
-        for I, out in vc.explore(body, contracts=ctr, max_paths=600):
-            if isinstance(out, vc.Outcome) and out.kind == 'unsupported':
-                res.append(vc.unsupported_result(f'{FN}/unsupported', case, out.note))
-                continue
-            res += vc.discharge(I, f'{FN}/', case, timeout, ladder=ladder, only=only, fallbacks=fallbacks)
-        return dedupe(res)
-    res = one_pass(4000, None, False)
-    failing = [r for r in res if r['kind'] in ('property', 'aux') and r['verdict'] not in ('proved',)
-               and not r['name'].endswith('/unsupported')]
-    if failing:
-        fin = finite_search(alias, unit, qc, cap, {r['name'] for r in failing if r['kind'] == 'property'}, finite_max)
-        retry = set()
-        for r in failing:
-            hit = fin.get(r['name'])
-            if hit:
-                r['verdict'] = 'refuted'
-                r['model'] = hit.get('model')
-                r['replays'] = hit.get('replays', [])
-                r['backend'] = 'z3api (finite instantiation)'
-                r['note'] = ((r.get('note') or '') + ' | ' + (hit.get('note') or ''))[:600]
-            else:
-                retry.add(r['name'])
-        if retry:
-            again = {r['name']: r for r in one_pass(TIMEOUT, retry, True) if r['name'] in retry}
-            for r in failing:
-                if r['name'] in again:
-                    a = again[r['name']]
-                    r.update({k: a[k] for k in ('verdict', 'secs', 'backend') if k in a})
-                    if r['verdict'] == 'refuted':
-                        # sat on the quantified formula but no finite witness with <= 2 substances: undecided
-                        r['verdict'] = 'unknown'
-                        r['note'] = (r.get('note') or '') + ' [sat on the quantified formula, no finite witness]'
-    return filter_pid(res, pid)
-
-
-def dedupe(res):
-    """Several paths produce the same (name, case): keep one entry per name with the worst verdict."""
-    order = {'refuted': 0, 'unknown': 1, 'unsupported': 1, 'unsat': 2, 'proved': 3, 'sat': 3}
-    best = {}
-    count = {}
-    for r in res:
-        k = (r['name'], r['kind'])
-        count[k] = count.get(k, 0) + 1
-        if k not in best or order.get(r['verdict'], 1) < order.get(best[k]['verdict'], 1):
-            best[k] = r
-        else:
-            best[k]['secs'] = best[k].get('secs', 0) + r.get('secs', 0)
-    out = []
-    for k, r in best.items():
-        r['paths'] = count[k]
-        out.append(r)
-    return out
-
-
-def clause_of(name):
-    n = name.split('/')[-1]
-    if '[' in n:
-        head, inner = n.split('[', 1)
-        inner = inner.rstrip(']')
-        if head == 'safe':
-            return 'safe'
-        if head == 'raises':
-            return 'refuse' if inner.startswith('refuse') else 'accept'
-        return inner.split('/')[0].split('-')[0] if inner not in ('nothing-moved',) else 'nothing-moved'
-    return n
-
-
-def filter_pid(res, pid):
-    if pid is None:
-        return res
-    out = []
-    for r in res:
-        if r['kind'] in ('cover',) or r['name'].endswith('/unsupported'):
-            out.append(dict(r, name=f"{pid}/" + r['name']))
-            continue
-        if r['kind'] == 'aux':
-            out.append(dict(r, name=f"{pid}/" + r['name']))
-            continue
-        cl = clause_of(r['name'])
-        if pid in PROPS_OF.get(cl, []):
-            out.append(dict(r, name=f"{pid}/" + r['name']))
-    return out
-
-
-# ------------------------------------------------------------------------------------------------ finite instantiation
-def finite_search(alias, unit, qc, cap, names, nmax=2):
-    """Look for concrete counterexamples to the named obligations with 1..nmax substances."""
-    found = {}
-    ctr = clib.contracts()
-    case = case_name(alias, unit, qc, cap)
-    for n in range(1, nmax + 1):
-        keys = [z3.Const(f's{i}', Sub) for i in range(n)]
-        pats = clib.presence_patterns(n, 1 if alias else 2)
-        for rows in pats:
-            pS = rows[0]
-            pT = rows[0] if alias else rows[1]
-            if not any(pS):
-                if qc in ('range',):
-                    continue
-
-            def body(I):
-                st = setup_case(I, alias, unit, qc, cap, finite=(keys, pS, pT))
-                T, S, q = st[0], st[1], st[2]
-                out = vc.call(I, FN, [T.obj, S.obj, SegStr([NumHole(q), ' ', unit])])
-                emit(I, out, alias, unit, qc, cap, *st, finite=(keys, pS, pT))
-                I.__dict__['_st'] = st
-                return out
-            for I, out in vc.explore(body, contracts=ctr, max_paths=300):
-                if isinstance(out, vc.Outcome) and out.kind in ('unsupported', 'end'):
-                    continue
-                st = I.__dict__['_st']
-                T, S, q = st[0], st[1], st[2]
-                inputs = {'q': q}
-                inputs.update(clib.sub_inputs(keys))
-                for s in keys:
-                    inputs[f'S_{s}'] = S.amt[s]
-                    inputs[f'T_{s}'] = T.amt[s]
-                if cap != 'inf':
-                    inputs['capT'] = T.cap
-
-                def replay(mv, ob, pS=pS, pT=pT, keys=keys):
-                    return make_replay(mv, keys, pS, pT, alias, unit, cap, ob.name)
-                prefs = clib.nice_model_prefs(keys, [S.amt[s] for s in keys] + [T.amt[s] for s in keys], [q] + (
-                    [T.cap] if cap != 'inf' else []))
-                for r in vc.discharge(I, f'{FN}/', case, 10000, inputs, replay, prefer=prefs):
-                    if r['name'] in names and r['name'] not in found and r['verdict'] == 'refuted' and r['kind'] == 'property':
-                        found[r['name']] = r
-            if names <= set(found):
-                return found
-    return found
+    return clib.run_op(OP, pid, (alias, unit, qc, cap), finite_max)
 
 
 REPLAY_CODE = clib.REPLAY_HEAD + clib.MK_CONTAINERS + r'''
